@@ -43,6 +43,7 @@ type Thread struct {
 	daemon  bool
 	retVal  Val
 	justScheduled bool
+	joining bool
 	wait    *waitSt
 }
 
@@ -107,6 +108,7 @@ type Exec struct {
 	cuts    map[string]bool
 	nice    []*Term
 	symOnly bool
+	preemptBound int
 	buffers map[string]*Term
 	fullTimeout int
 	freshRetries int
